@@ -90,6 +90,7 @@ package main
 //@ func findFiles(cwd, patterns) (files, err)
 //@   assigns enumFailures, allof("E.main_sourcePath"), allof("E.token_Pos")
 //@   at call main.findGoFiles set enumFailures = enumFailures + ite(result1 != nil, 1, 0)
+//@   at call fmt.Errorf assert [C16] diagnostic-names-the-pattern-and-the-cause: arg1[0] == boxed(pat) && arg1[1] == findErr
 //@   ensures [C16] enumeration-failure-reported: enumFailures > old(enumFailures) ==> err != nil
 //@   ensures [C15,C16] no-failure-no-error: enumFailures == old(enumFailures) ==> err == nil
 //@   loop 0
